@@ -1928,6 +1928,13 @@ function PolyFunctionType:_init(args, rettypes, node)
   self.evals = {}
 end
 
+-- Compile-time values are the same only if no code can tell them apart (0.0 == -0.0 in Lua).
+local function same_comptime_value(a, b)
+  if a ~= b then return false end
+  if a == 0 and math.type(a) == 'float' and math.type(b) == 'float' then return 1/a == 1/b end
+  return true
+end
+
 local function poly_args_matches(largs, rargs)
   for _,larg,rarg in iters.izip2(largs, rargs) do
     local ltype = traits.is_attr(larg) and larg.type or larg
@@ -1935,11 +1942,11 @@ local function poly_args_matches(largs, rargs)
     if ltype ~= rtype then
       return false
     elseif ltype.is_comptime and traits.is_attr(larg) then
-      if larg.value ~= rarg.value or not traits.is_attr(rarg) then
+      if not same_comptime_value(larg.value, rarg.value) or not traits.is_attr(rarg) then
         return false
       end
     elseif traits.is_attr(larg) and larg.comptime then
-      if rarg.value ~= larg.value or not traits.is_attr(rarg) then
+      if not same_comptime_value(rarg.value, larg.value) or not traits.is_attr(rarg) then
         return false
       end
     end
